@@ -668,6 +668,40 @@ func runC06(c *eng.Ctx) {
 		c.R.Begin(idx)
 		check(idx, s, "directed")
 	}
+	// a registration that was removed again is not part of the set: the verdict of the collection with
+	// the history equals the verdict of a collection that only ever saw what is left (here: a scoped
+	// service that a longer-lived one would have captured through an OPTIONAL dependency)
+	for _, life := range []godi.Lifetime{godi.Singleton, godi.Transient} {
+		for hi, pair := range [][2]*Spec{
+			{{Regs: []Reg{mkReg("Leaf_K1_a", godi.Scoped), mkReg("InU_0_2_Opt", life), {Remove: true, RmType: "K1", Tail: true}}},
+				{Regs: []Reg{mkReg("InU_0_2_Opt", life)}}},
+			{{Regs: []Reg{mkReg("Leaf_K1_a", godi.Scoped), {Remove: true, RmType: "K1", Tail: true}, tailReg(mkReg("InU_0_2_Opt", life))}},
+				{Regs: []Reg{mkReg("InU_0_2_Opt", life)}}},
+			{{RebuildAfter: 1, Regs: []Reg{mkReg("Leaf_K1_a", godi.Scoped), {Remove: true, RmType: "K1", Tail: true}, tailReg(mkReg("InU_0_2_Opt", life)), tailReg(mkReg("PosA_2_1", godi.Scoped))}},
+				{Regs: []Reg{mkReg("InU_0_2_Opt", life), mkReg("PosA_2_1", godi.Scoped)}}},
+			{{Regs: []Reg{mkReg("Leaf_K1_a", godi.Scoped), mkReg("InU_0_2_Opt", life), {Remove: true, RmType: "K1", Tail: true}, tailReg(mkReg("Leaf_K1_b", life))}},
+				{Regs: []Reg{mkReg("InU_0_2_Opt", life), mkReg("Leaf_K1_b", life)}}},
+		} {
+			idx, mine := cr.next()
+			if !mine {
+				continue
+			}
+			hist, net := pair[0], pair[1]
+			mh, mn := NewModel(hist), NewModel(net)
+			if mh.Class != ClsOK || mn.Class != ClsOK {
+				panic(fmt.Sprintf("harness fixture %d of C06 (history vs what is left) is not buildable: %s / %s", hi, mh.Class, mn.Class))
+			}
+			c.R.Begin(idx)
+			c.R.Count("history_vs_remaining_set_pairs", 1)
+			bh, bn := buildAndDescribe(hist, mh), buildAndDescribe(net, mn)
+			var fs []Finding
+			if bh.class != bn.class {
+				fs = append(fs, Finding{"verdict-differs", "removed-registration-still-counts:" + lifeName(life) + ":" + bh.class, fmt.Sprintf("Build verdict %q for the collection with the history, %q for a collection that only ever saw the remaining registrations (%s | %s)\nhistory:\n  %s", bh.class, bn.class, trimErr(bh.run.BuildErr), trimErr(bn.run.BuildErr), strings.Join(hist.Lines(), "\n  "))})
+			}
+			report(c, "C06", idx, bh.run, fs)
+			c.R.End(idx, eng.Hash("c06-history-vs-net", hi, int(life)), true)
+		}
+	}
 	// every unusual declaration form, every slot served: same verdict and object graph under
 	// rebuilds and permutations, dependencies constructed first
 	runSlotSpecs(cr, map[string]bool{"valid": true}, func(idx int, s *Spec, m *Model, kind string) { check(idx, s, kind) }, nil)
